@@ -373,7 +373,7 @@ func runSchedule(c *Ctx, rng *RNG, cfg rtConfig) *rtRun {
 				r.panics = append(r.panics, fmt.Sprint(pn))
 			}
 		}()
-		d, err = p.Config(root, &RC{}, srcs...)
+		d, err = p.Config(root, &RC{N: &RCN{}}, srcs...)
 	}()
 	rep := r.ask(initLabel)
 	if err != nil {
@@ -393,8 +393,8 @@ func runSchedule(c *Ctx, rng *RNG, cfg rtConfig) *rtRun {
 		return r
 	}
 	if obsI := r.obs(); rep != "ok "+obsI {
+		// continue on the implementation alone (see doStep): the direct oracles may turn this into a violation
 		r.mismatch = fmt.Sprintf("after Config: implementation %q, model %q", obsI, rep)
-		return r
 	}
 	for i := 1; i <= cfg.nclients; i++ {
 		cl := &rtClient{id: i, status: "idle", cmd: make(chan rtOp), unreg: map[int]dials.UnregisterCBFunc{}}
@@ -408,7 +408,7 @@ func runSchedule(c *Ctx, rng *RNG, cfg rtConfig) *rtRun {
 	}()
 	prof := cfg.profile
 	stuckActive := false
-	for n := 0; n < cfg.steps && r.mismatch == "" && r.hang == ""; n++ {
+	for n := 0; n < cfg.steps && r.hang == ""; n++ {
 		var acts []rtAction
 		var ws []int
 		if p, _, _, _ := r.actors["mon"].status(); p {
